@@ -168,4 +168,23 @@ the `Release` failed (`err1` wins; otherwise `err2`).  0 = ok, 1 = base error,
 def cleanRunnerResult (err1 err2 : Bool) : Nat :=
   if err1 then 1 else if err2 then 2 else 0
 
+/-!
+### `pkg/cleaner/chained_cleaner.go`
+
+`NewChainedCleaner(cleaners)` is the `Cleaner` that `cmd/bb_runner` hands to the
+`IdleInvoker` of `CleanRunner` (process table, temporary directories, cleaning
+command).  Transcription of its loop: every cleaner is invoked, in order, also
+after a failure; `chainedErr` keeps the first non-nil error.  An outcome is a
+`Nat`: `0` = nil, anything else identifies the error.
+-/
+
+/-- the loop `for _, cleaner := range cleaners { if err := cleaner(ctx); chainedErr == nil { chainedErr = err } }`
+started with `chainedErr = err`; result = (returned error, number of cleaners invoked so far `n`). -/
+def chainedFrom (err n : Nat) : List Nat → Nat × Nat
+  | [] => (err, n)
+  | o :: rest => chainedFrom (if err = 0 then o else err) (n + 1) rest
+
+/-- `NewChainedCleaner(cleaners)(ctx)` when the cleaners answer `outs`. -/
+def chained (outs : List Nat) : Nat × Nat := chainedFrom 0 0 outs
+
 end BbRe.Idle
